@@ -4157,6 +4157,12 @@ func NewTableIdent(str string) TableIdent {
 
 // Format formats the node.
 func (node TableIdent) Format(buf *TrackedBuffer) {
+	if strings.HasPrefix(node.v, "@@") {
+		// The tokenizer lets a name that starts with @@ run on over a following dot, and a table name is
+		// usually followed by one: such a name is only printed quoted.
+		buf.Myprintf("`%s`", strings.Replace(node.v, "`", "``", -1))
+		return
+	}
 	formatID(buf, node.v, strings.ToLower(node.v))
 }
 
